@@ -28,3 +28,65 @@ theorem testBit_lt_of_lt_two_pow {v len j : Nat} (hv : v < 2^len) (hj : len ≤ 
   exact Nat.lt_of_lt_of_le hv (Nat.pow_le_pow_right (by omega) hj)
 
 end KV.Bits
+
+namespace KV.Bits
+
+theorem testBit_readOff32 (m off j : Nat) :
+    (readOff32 m off).testBit j = (decide (j < 32) && m.testBit (8 * (off / 8) + j)) := by
+  unfold readOff32
+  rw [Nat.testBit_mod_two_pow, Nat.testBit_shiftRight]
+
+theorem testBit_readInt25 (m off len j : Nat) :
+    (readInt25 m off len).testBit j =
+      (decide (j < len) && (decide (off % 8 + j < 32) && m.testBit (off + j))) := by
+  simp only [readInt25, Nat.testBit_mod_two_pow, Nat.testBit_shiftRight, testBit_readOff32]
+  have : 8 * (off / 8) + (off % 8 + j) = off + j := by omega
+  rw [this]
+
+theorem testBit_writeInt25 (m off len v j : Nat) :
+    (writeInt25 m off len v).testBit j =
+      (m.testBit j || (decide (8 * (off / 8) ≤ j) && (decide (j - 8 * (off / 8) < 32) &&
+        (decide (off % 8 ≤ j - 8 * (off / 8)) && v.testBit (j - 8 * (off / 8) - off % 8))))) := by
+  unfold writeInt25
+  rw [Nat.testBit_or, Nat.testBit_shiftLeft, Nat.testBit_mod_two_pow, Nat.testBit_shiftLeft]
+
+theorem testBit_readFloat32 (m off j : Nat) :
+    (readFloat32 m off).testBit j = (decide (j < 32) && m.testBit (off + j)) := by
+  have h := testBit_readInt57 m off 32 j
+  unfold readInt57 at h
+  unfold readFloat32
+  rw [h]
+  by_cases hj : j < 32
+  · have : off % 8 + j < 64 := by omega
+    simp [hj, this]
+  · simp [hj]
+
+end KV.Bits
+
+namespace KV.Bits
+
+theorem requiredBitsLoop_spec : ∀ fuel mx ret, 0 < mx → mx < 2^fuel →
+    ret ≤ requiredBitsLoop fuel mx ret ∧
+    2^(requiredBitsLoop fuel mx ret - ret) ≤ mx ∧ mx < 2^(requiredBitsLoop fuel mx ret - ret + 1) := by
+  intro fuel
+  induction fuel with
+  | zero => intro mx ret h0 h1; simp at h1; omega
+  | succ n ih =>
+    intro mx ret h0 h1
+    unfold requiredBitsLoop
+    by_cases hz : mx / 2 = 0
+    · have : mx = 1 := by omega
+      subst this
+      simp
+    · simp only [hz, ↓reduceIte]
+      have h2 : 0 < mx / 2 := by omega
+      have h3 : mx / 2 < 2^n := by
+        rw [Nat.pow_succ] at h1; omega
+      obtain ⟨a, b, c⟩ := ih (mx / 2) (ret + 1) h2 h3
+      generalize requiredBitsLoop n (mx / 2) (ret + 1) = r at a b c
+      have e1 : r - ret = (r - (ret + 1)) + 1 := by omega
+      refine ⟨by omega, ?_, ?_⟩
+      · rw [e1, Nat.pow_succ]; omega
+      · rw [e1, Nat.pow_succ]; rw [Nat.pow_succ] at c ⊢; omega
+
+end KV.Bits
